@@ -33,6 +33,18 @@ class RebuildQueuesJob(APIJob):
         return "Rebuild queues"
 
 
+def queue_destination(repo, queue_branch):
+    """Destination branch of a q/<version> or q/w/<pr>/<version>/... branch."""
+    if queue_branch.hfrev is not None:
+        name = 'hotfix/%d.%d.%d' % (queue_branch.major, queue_branch.minor,
+                                    queue_branch.micro)
+    elif queue_branch.micro is not None:
+        name = 'stabilization/%s' % queue_branch.version
+    else:
+        name = 'development/%s' % queue_branch.version
+    return branch_factory(repo, name)
+
+
 @handler(RebuildQueuesJob)
 def rebuild_queues(job: RebuildQueuesJob):
     """Rebuild the queues entirely."""
@@ -52,10 +64,9 @@ def rebuild_queues(job: RebuildQueuesJob):
     if not queue_branches:
         raise exceptions.JobSuccess()
 
-    branch_factory(
-        repo,
-        'development/{}'.format(queue_branches[0].version)
-    ).checkout()
+    # leave the q/* branches before removing them: check out the destination
+    # branch of the first one (a development, stabilization or hotfix branch)
+    queue_destination(repo, queue_branches[0]).checkout()
 
     for branch in queue_branches:
         branch.remove(do_push=False)
